@@ -84,7 +84,14 @@ class SourceToSourceImportBlockTransformation(SourceToSourceTransformationBase):
 
     def pretty_print(self, params=None):
         params = ImportFormatParams(params)
-        return self.importset.pretty_print(params)
+        result = self.importset.pretty_print(params)
+        if (not result and self.input.startpos.colno != 1
+            and self.input.text.joined.endswith("\n")):
+            # Every import was removed from a block that shares its first
+            # line with a preceding statement.  Keep the line break so that
+            # the next line is not glued onto that statement.
+            result = "\n"
+        return result
 
     def __repr__(self):
         return f"<SourceToSourceImportBlockTransformation {self.importset!r} @{hex(id(self))}>"
